@@ -154,10 +154,10 @@ impl Prop for C01 {
         "C01"
     }
     fn rule(&self) -> String {
-        "cases = 1-8 client commands (QUERY/PREPARE/INIT_DB text payloads, SEND_LONG_DATA+EXECUTE raw payloads) with payload lengths from classes {1-16, 4086-4100, 8180-8196, 65533-65537, random<20000, k*(2^24-1)+d} x a chunk schedule (one read, 1-byte reads, tiny reads, random sizes, exact messages, k messages + partial header, cuts inside headers; for >=16 MiB payloads 1-5 byte reads inside windows around every packet header), with the client either pipelining everything or (1 in 3) sending each command only after the previous reply; the enumerated large commands are followed by another command in half of the cases and are the last thing sent in the other half. Non-trivial = some read() boundary fell strictly inside a 4-byte packet header, or some command's bytes were delivered by >= 2 reads (measured from the transport's operation log). Distinct = distinct serialised case.".into()
+        "cases = 1-8 client commands (QUERY/PREPARE/INIT_DB text payloads, SEND_LONG_DATA+EXECUTE raw payloads) with payload lengths from classes {1-16, 4086-4100, 8180-8196, 65533-65537, random<20000, k*(2^24-1)+d for k = 1, 2, 3 and sizes up to the 64 MiB the server advertises as max_allowed_packet} x a chunk schedule (one read, 1-byte reads, tiny reads, random sizes, exact messages, k messages + partial header, cuts inside headers; for >=16 MiB payloads 1-5 byte reads inside windows around every packet header), with the client either pipelining everything or (1 in 3) sending each command only after the previous reply; the enumerated large commands are followed by another command in half of the cases and are the last thing sent in the other half. Non-trivial = some read() boundary fell strictly inside a 4-byte packet header, or some command's bytes were delivered by >= 2 reads (measured from the transport's operation log). Distinct = distinct serialised case.".into()
     }
     fn assumptions(&self) -> Vec<String> {
-        vec!["payloads beyond ~2*(2^24-1)+70000 bytes are not explored".into(), "the recording shim iterates all parameters of every execution".into()]
+        vec!["payloads beyond 64 MiB (the limit the server advertises as max_allowed_packet) are not explored".into(), "the recording shim iterates all parameters of every execution".into()]
     }
     fn cases(&self, tier: Tier) -> u64 {
         tier.pick(20000, 200000)
@@ -210,6 +210,12 @@ impl Prop for C01 {
         if tier == Tier::Quick {
             // 7 sizes
             sizes = vec![U24 - 1, U24, U24 + 1, 2 * U24 - 1, 2 * U24, 2 * U24 + 1, 2 * U24 + 65_536 + 17];
+        }
+        // up to the size the server itself advertises as its limit (SELECT @@max_allowed_packet:
+        // 64 MiB), which takes five packets
+        match tier {
+            Tier::Quick => sizes.extend([3 * U24 + 1, (1 << 26) - 9, 1 << 26]),
+            Tier::Thorough => sizes.extend([3 * U24 - 1, 3 * U24, 3 * U24 + 1, 4 * U24 - 20, (1 << 26) - 17, (1 << 26) - 9, (1 << 26) - 1, 1 << 26]),
         }
         let nsched = tier.pick(3, 6);
         for (i, &sz) in sizes.iter().enumerate() {
